@@ -6,6 +6,8 @@ from props import treelib as T
 
 ID = "C07"
 LEAN_MODULES = ["Ccp.Props.C07", "Ccp.Props.C07Ck"]
+# bound of the escalated quick run (source fingerprint changed -> thorough generator): keeps that run near two minutes
+ESCALATE_MAX_CASES = 70000
 RULE = ("[also: 500 (quick) checkpoint histories with auto_commit off -- inserts in bursts of identical payloads, pop, text setter, commit -- whose "
         "current_checkpoint - commit_checkpoint and search_safe are read after every operation] edit histories (same operation alphabet as C06, 1..8 operations, raw object handles resolved modulo the current length) from "
         "11 seed configs, banner/macro-bearing random configs and plain random configs; all four syntaxes; ignore_blank_lines on/off; "
